@@ -28,6 +28,8 @@ InSub == {[shape |-> "insub", neg |-> n, inner |-> i, where |-> w, tgt |-> "star
 SetOp == {[shape |-> "setop", op |-> o, lw |-> lw, rw |-> rw] :
             o \in {"union", "union all", "intersect", "except"}, lw \in {"none", "b=1"}, rw \in {"none", "c=1"}}
 Cte == {[shape |-> "cte", kind |-> k, where |-> w, inner |-> i] : k \in {"inner", "left"}, w \in {"none", "t1b=1", "cc=1"}, i \in {"none", "c=1"}}
+\* a CTE named like a real table of another (or the same) integration that the statement also uses, qualified
+CteShadow == {[shape |-> "cteshadow", use |-> u, inner |-> i] : u \in {"join", "insub", "own-source", "join-t3", "join-default"}, i \in {"none", "b>1"}}
 Nested == {[shape |-> "nested", kind |-> k, where |-> w, inner |-> i] : k \in {"inner", "left"}, w \in {"none", "t2c=1", "sb=1"}, i \in {"none", "b=1", "limit1"}}
 Scalar == {[shape |-> "scalar", f |-> f, cmp |-> o] : f \in {"max", "min", "count"}, o \in {"=", ">"}}
 
@@ -37,7 +39,7 @@ Single == {[shape |-> "single", body |-> b, alias |-> a] :
                     "cte", "cte-mixedcase", "cte-only", "cast", "star-qualified", "distinct", "expr", "exists", "case-insensitive", "join3", "having"},
              a \in {"none", "table-alias", "alias-is-integration-name", "column-named-like-integration", "qualified-columns"}}
 
-Cases == IF Family = "federated" THEN Join2 \cup Join3 \cup InSub \cup SetOp \cup Cte \cup Nested \cup Scalar ELSE Single
+Cases == IF Family = "federated" THEN Join2 \cup Join3 \cup InSub \cup SetOp \cup Cte \cup CteShadow \cup Nested \cup Scalar ELSE Single
 Init == c \in Cases
 Next == UNCHANGED c
 Spec == Init /\ [][Next]_c
